@@ -15,6 +15,10 @@ pub static CODEC_ONLY: AtomicBool = AtomicBool::new(false);
 /// (E1, E3, D1-D6); the byte-view algebra, metadata and size checks are skipped because an
 /// interpreter executes them thousands of times slower and they contain no `unsafe` path.
 pub static LEAN: AtomicBool = AtomicBool::new(false);
+/// Alarm-path self-test: the reference model is deliberately wrong (big-endian payload), so that the
+/// unchanged tree "violates" E1 and the whole detect / minimise / persist / replay path can be exercised
+/// without touching /repo. Only ever set in a child process whose output is captured.
+pub static CANARY: AtomicBool = AtomicBool::new(false);
 
 #[derive(Clone, Debug)]
 pub struct Violation {
@@ -58,10 +62,17 @@ pub fn expected_values(r: &Record) -> Vec<u128> {
 pub fn model_bytes(r: &Record, wb: usize) -> (Vec<u8>, Vec<(usize, usize, usize)>) {
     let mut b = Vec::new();
     let mut spans = Vec::new();
+    let canary = CANARY.load(Ordering::Relaxed);
     let mut payload = |b: &mut Vec<u8>, vals: &[u128]| {
         for (j, v) in vals.iter().enumerate() {
             spans.push((b.len(), wb, j));
-            b.extend(le_bytes(*v, wb));
+            if canary {
+                let mut x: Vec<u8> = le_bytes(*v, wb).collect();
+                x.reverse();
+                b.extend(x);
+            } else {
+                b.extend(le_bytes(*v, wb));
+            }
         }
     };
     match r.shape {
@@ -407,6 +418,20 @@ fn serde_op(table: &[Ops], o: &SerdeOp, k: usize, log: &mut Log) -> Result<(), V
                                 return Err(viol("S4", k, &f0, format!("{}: JSON {:?} parsed to {:?}, one-field integer struct to {:?}", l.name, part, x, y)));
                             }
                         }
+                    }
+                }
+                // other spellings of the same document: escaped key (forces an owned key string), extra
+                // whitespace, and delivery through a reader instead of a borrowed str
+                let num = &text[text.find(':').map(|i| i + 1).unwrap_or(0)..text.len().saturating_sub(1)];
+                for alt in [format!("{{\"b\\u0069ts\":{}}}", num), format!(" {{ \"bits\" :\n {} }} ", num)] {
+                    let r = catch_unwind(|| ((s.unjson)(&alt, o.wrapping), (s.unjson_reader)(&alt, o.wrapping), (s.unjson_twin)(&alt)));
+                    match r {
+                        Ok((x, z, y)) if x == y && z == y && y == Ok(bits) => {}
+                        Ok((x, z, y)) => {
+                            log.ev(ev::CHECK_FAIL, check_no("S4"), k as u64);
+                            return Err(viol("S4", k, &f0, format!("{}: JSON {:?} parsed to {:?} (from_str) / {:?} (from_reader), one-field integer struct to {:?}", l.name, alt, x, z, y)));
+                        }
+                        Err(p) => return Err(viol("S4", k, &f0, format!("{}: serde_json parse of {:?} unwound: {}", l.name, alt, un(p)))),
                     }
                 }
                 // sequence form, as compact formats present structs
